@@ -105,8 +105,9 @@ func fallbackOn(sc *scn.Scenario, em func(vt.Ev), distributed bool) {
 		res := qry.Exec(context.Background())
 		c := run.Canon(res)
 		qry.Close()
-		equal := rerr == nil && run.Compare(c, rres).Equal
-		em(vt.Ev{"ev": "exec", "fallback": fb, "equal": equal, "sentinel": isSentinel(res.Err), "desc": run.Compare(c, rres).Desc})
+		d := run.Compare(c, rres)
+		equal := rerr == nil && d.Equal
+		em(vt.Ev{"ev": "exec", "fallback": fb, "equal": equal, "sentinel": isSentinel(res.Err), "desc": d.Desc, "shape": d.What + ":" + d.Shape})
 	}
 	em(vt.Ev{"ev": "end"})
 }
